@@ -552,8 +552,19 @@ impl World {
         // destructors that unwound (injected fault): remember which values
         for t in tok::take_drop_faulted() {
             if let Some(oid) = self.tok_owner(t) {
+                // The crate leaks, by construction, the block of a value whose destructor unwound
+                // while the sweep was releasing it (unlinked, never deallocated) or while the
+                // arena was being dropped. Not so for a value that is weakly referenced from a
+                // reachable holder: the sweep keeps that block as a shell, with its bookkeeping
+                // done before the destructor runs - it stays an ordinary shell.
+                let shell_case = weak_protect.contains(&oid);
                 if let Some(o) = self.sh.objs.get_mut(&oid) {
-                    o.drop_faulted = true;
+                    if !shell_case {
+                        o.drop_faulted = true;
+                    }
+                }
+                if shell_case {
+                    self.stats.flag("C05.destructor-fault-in-shell");
                 }
                 self.stats.drop_faults += 1;
                 self.stats.flag("C05.destructor-fault");
